@@ -150,6 +150,19 @@ NOTES = {
  'C19g': ('missed', 'one leaf in both copies of a repeated parent field, with its own directives in each copy (gateway and single server)'),
  'C20g': ('detected', ''),
 }
+# seeds whose change has no effect any more on the current tree (a later repair of thunder covers the same line), or whose
+# patch was rebased onto a line a later repair changed (the original is kept as patch.orig.diff)
+LATER = {
+ 'C02d': 'superseded: after fix bb3c8c4 (presence of __key is compared first) the changed comparison cannot differ any more; the demonstration passes with the change rebased onto the current line. Detected (record below) on the tree it was made for.',
+ 'C03': 'superseded by fix bb3c8c4 like C02d (the same line).',
+ 'C16b': 'superseded: after fix b3d84a6 a cancellation cause only counts while the run\'s own context has ended, which is what the change broke; detected (record below) on the tree it was made for.',
+ 'C14': 'patch rebased onto fix 8c30090 (same change: sub-selections validated only on the first visit).',
+ 'C15f': 'patch rebased onto fix b3d84a6 (same change: the close runs synchronously in the cancelled branch).',
+ 'C17': 'patch rebased onto fix b3d84a6 (same change: closeSubscription instead of closeSubscriptionIfCurrent).',
+ 'C20': 'patch rebased onto fix 8f32405 (same change: status checked, token sent, status stored - not atomic).',
+ 'C20f': 'patch rebased onto fix 8f32405 (same change: the deferred re-acquire moved out of the if).',
+ 'C20g': 'patch rebased onto fix 8f32405 (same change: the re-acquire send races with ctx.Done).',
+}
 rows = []
 for name in sorted(os.listdir(ROOT)):
     d = os.path.join(ROOT, name)
@@ -178,6 +191,8 @@ for name, meta, conf, files in rows:
     if t:
         det += '; thorough: %s' % ('yes' if t.get('detected') else 'no')
     first, change = NOTES.get(name, ('', ''))
+    if name in LATER:
+        change = (change + '; ' if change else '') + LATER[name]
     needs = meta.get('needs_to_manifest', '').replace('|', '/').replace('\n', ' ')
     if len(needs) > 330:
         needs = needs[:327] + '...'
